@@ -1553,6 +1553,7 @@ func (gen *Generator) GeneratePackage(expressions []Sexp) error {
 	gen.Tail = false
 
 	gen.AddInstruction(AddScopeInstr{Name: pkgName})
+	gen.scopes++ // so that break, continue and tail calls in the body unwind the package scope too
 	gen.AddInstruction(PushStackmarkInstr{sym: symPkgName})
 
 	if size > 1 {
@@ -1574,6 +1575,7 @@ func (gen *Generator) GeneratePackage(expressions []Sexp) error {
 	gen.AddInstruction(PopUntilStackmarkInstr{sym: symPkgName})
 	gen.AddInstruction(PopInstr(0)) // remove the stackmark itself now
 	gen.AddInstruction(PopScopeTransferToDataStackInstr{PackageName: pkgName})
+	gen.scopes--
 	return nil
 }
 
